@@ -328,19 +328,21 @@ structure SyncSpec (s : St) (r : St × Option EK × Bool) : Prop where
   synced : ∃ evs, r.1.sink = s.sink ++ evs ++ [.sync] ∧ ∀ e ∈ evs, e ≠ .sync
   flushed : (s.init = false → s.buf = []) → r.2.1 = none → r.1.buf = []
   err_keep : s.init = false → r.1.err = s.err ∧ r.1.buf = s.buf
+  err_eq : s.init = true → r.2.1 = r.1.err
 
 theorem sync_spec (s : St) : SyncSpec s (sync s) := by
   unfold sync wsSync
   cases hi : s.init with
   | false =>
     simp only [Bool.false_eq_true, if_false]
-    exact ⟨rfl, rfl, rfl, Nat.le_refl _, by simp [content], ⟨[], by simp, by simp⟩, fun h _ => h hi, fun _ => ⟨rfl, rfl⟩⟩
+    exact ⟨rfl, rfl, rfl, Nat.le_refl _, by simp [content], ⟨[], by simp, by simp⟩, fun h _ => h hi, fun _ => ⟨rfl, rfl⟩,
+      fun h => (by rw [hi] at h; cases h)⟩
   | true =>
     simp only [if_true]
     have F := flush_spec s
     obtain ⟨evs, hg, hn⟩ := F.frame.grows
     refine ⟨F.frame.size, F.frame.init, F.frame.stopped, F.shrink, ?_, ⟨evs, by simp [hg], hn⟩,
-      fun _ h => F.ok_empty h, fun h => (by rw [hi] at h; cases h)⟩
+      fun _ h => F.ok_empty h, fun h => (by rw [hi] at h; cases h), fun _ => F.err_eq⟩
     have := F.content
     simp only [Bws.content, taken_append, taken_sync, List.append_nil] at this ⊢
     exact this
@@ -707,5 +709,137 @@ theorem aligned_prefix {ws : List Bytes} {sink : List Ev} {buf : Bytes} (ha : Al
   have hg : g.flatten = (g.take j).flatten ++ (g.drop j).flatten := by
     rw [← List.flatten_append, List.take_append_drop]
   rw [full_taken hfp, hj, h1, hg, List.append_assoc, List.take_left' rfl, List.flatten_flatten]
+
+/-! ## more facts used by the property theorems -/
+
+theorem run_append (a b : List Op) : ∀ s, run s (a ++ b) = run (run s a) b := by
+  induction a with
+  | nil => intro s; rfl
+  | cons o os ih => intro s; simp only [List.cons_append, run]; exact ih _
+
+theorem accepted_append (a b : List Op) : ∀ s, accepted s (a ++ b) = accepted s a ++ accepted (run s a) b := by
+  induction a with
+  | nil => intro s; simp [accepted, run]
+  | cons o os ih =>
+    intro s
+    cases o <;> simp only [List.cons_append, accepted, run, step, ih, List.append_assoc]
+
+theorem step_sink_prefix (s : St) (o : Op) : s.sink <+: (step s o).1.sink := by
+  cases o with
+  | write bs =>
+    by_cases hb : s.buf.length ≤ s.size
+    · obtain ⟨evs, h, _⟩ := (write_spec s bs hb).grows
+      exact ⟨evs, h.symm⟩
+    · -- outside the well-formed states nothing is claimed about the bound, but the sink still only grows
+      have key : ∀ (fuel : Nat) (s : St) (p : Bytes) (nn : Nat), s.sink <+: (bwrite fuel s p nn).1.sink := by
+        intro fuel
+        induction fuel with
+        | zero => intro s p nn; exact List.prefix_refl _
+        | succ f ih =>
+          intro s p nn
+          rw [bwrite]
+          split
+          · refine List.IsPrefix.trans ?_ (ih _ _ _)
+            unfold loopBody
+            split
+            · exact ⟨_, (sinkWrite_sink s p).symm⟩
+            · obtain ⟨evs, h, _⟩ := (flush_spec { s with buf := s.buf ++ p.take s.avail }).frame.grows
+              exact ⟨evs, h.symm⟩
+          · split <;> exact List.prefix_refl _
+      simp only [step, write]
+      split
+      · obtain ⟨evs, h, _⟩ := (flush_spec { s with init := true }).frame.grows
+        have hp : s.sink <+: (flush { s with init := true }).1.sink := ⟨evs, h.symm⟩
+        cases hfl : flush { s with init := true } with
+        | mk s1 oe =>
+          rw [hfl] at hp
+          cases oe with
+          | some e => exact hp
+          | none => exact hp.trans (key _ _ _ _)
+      · exact key _ { s with init := true } _ _
+  | sync =>
+    obtain ⟨evs, h, _⟩ := (sync_spec s).synced
+    exact ⟨evs ++ [.sync], by simp only [step]; rw [h, List.append_assoc]⟩
+  | tick =>
+    simp only [step, tick]; split
+    · obtain ⟨evs, h, _⟩ := (sync_spec s).synced
+      exact ⟨evs ++ [.sync], by rw [h, List.append_assoc]⟩
+    · exact List.prefix_refl _
+  | stop =>
+    simp only [step, stop]; split
+    · exact List.prefix_refl _
+    · obtain ⟨evs, h, _⟩ := (sync_spec { s with stopped := true }).synced
+      exact ⟨evs ++ [.sync], by rw [h, List.append_assoc]⟩
+
+theorem run_sink_prefix (ops : List Op) : ∀ s, s.sink <+: (run s ops).sink := by
+  induction ops with
+  | nil => intro s; exact List.prefix_refl _
+  | cons o os ih => intro s; exact (step_sink_prefix s o).trans (ih _)
+
+theorem taken_prefix {a b : List Ev} (h : a <+: b) : taken a <+: taken b := by
+  obtain ⟨r, hr⟩ := h
+  exact ⟨taken r, by rw [← hr, taken_append]⟩
+
+/-- once an error has stuck in the `bufio.Writer`, `Write` accepts nothing, touches nothing and reports it -/
+theorem write_sticky (s : St) (bs : Bytes) (e : EK) (he : s.err = some e) :
+    write s bs = ({ s with init := true }, 0, some e) := by
+  unfold write
+  have hf : flush { s with init := true } = ({ s with init := true }, some e) := (flush_spec _).sticky e he
+  have hb : bufioWrite { s with init := true } bs = ({ s with init := true }, 0, some e) := by
+    unfold bufioWrite fuelFor
+    rw [bwrite, if_neg (by simp [he])]
+    simp only [he]
+  simp only [hf, hb, ite_self]
+
+/-- an operation that flushes: `Sync`; a tick or `Stop` while the syncer has not been stopped -/
+def FlushOp (s : St) (o : Op) : Prop := o = .sync ∨ ((o = .tick ∨ o = .stop) ∧ s.stopped = false)
+
+/-- after a flushing operation that left no error behind, nothing is held back -/
+theorem flushop_empty (s : St) (o : Op) (hw : Wf s) (hf : FlushOp s o) (he : (step s o).1.err = none) :
+    (step s o).1.buf = [] := by
+  have key : ∀ t : St, Wf t → (sync t).1.err = none → (sync t).1.buf = [] := by
+    intro t ht h
+    have S := sync_spec t
+    cases hi : t.init with
+    | false => rw [(S.err_keep hi).2]; exact (ht.fresh hi).1
+    | true => exact S.flushed (fun h' => by rw [hi] at h'; cases h') (by rw [S.err_eq hi]; exact h)
+  rcases hf with rfl | ⟨rfl | rfl, hs⟩
+  · exact key s hw he
+  · simp only [step, tick] at he ⊢
+    cases hi : s.init with
+    | false => simp; exact (hw.fresh hi).1
+    | true =>
+      simp only [hi, hs, Bool.not_false, Bool.and_self, if_true] at he ⊢
+      exact key s hw he
+  · simp only [step, stop] at he ⊢
+    cases hi : s.init with
+    | false => simp; exact (hw.fresh hi).1
+    | true =>
+      simp only [hi, hs, Bool.not_true, Bool.or_self, Bool.false_eq_true, if_false] at he ⊢
+      exact key _ ⟨hw.bound, fun h' => by simp at h'⟩ he
+
+theorem flushop_accepts_nothing (s : St) (o : Op) (hf : FlushOp s o) : accepted s [o] = [] := by
+  rcases hf with rfl | ⟨rfl | rfl, _⟩ <;> rfl
+
+theorem flushop_synced (s : St) (o : Op) (hf : FlushOp s o) (hi : s.init = true) :
+    (step s o).1.sink.getLast? = some .sync := by
+  have key : ∀ t : St, (sync t).1.sink.getLast? = some .sync := by
+    intro t
+    obtain ⟨evs, h, _⟩ := (sync_spec t).synced
+    rw [h]; simp
+  rcases hf with rfl | ⟨rfl | rfl, hs⟩
+  · exact key s
+  · simp only [step, tick, hi, hs, Bool.not_false, Bool.and_self, if_true]; exact key s
+  · simp only [step, stop, hi, hs, Bool.not_true, Bool.or_self, Bool.false_eq_true, if_false]; exact key _
+
+theorem stop_twice (s : St) : stop (stop s).1 = ((stop s).1, none, false) := by
+  unfold stop
+  by_cases hc : (!s.init || s.stopped) = true
+  · simp only [hc, if_true]
+  · have hi : s.init = true := by cases h : s.init <;> simp [h] at hc ⊢
+    simp only [hc]
+    have S := sync_spec { s with stopped := true }
+    have : (sync { s with stopped := true }).1.stopped = true := S.stopped
+    simp [this]
 
 end ZapVerif.Bws
